@@ -495,6 +495,8 @@ pub struct Srv {
     pub tr: Tr,
     pub mw: bool,
     pub addr: SocketAddr,
+    /// configuration suffix of the server's name (c03_bp.rs: small outbound queue / runtime flavour); None: default configuration
+    pub tag: Option<String>,
 }
 
 impl Srv {
@@ -505,7 +507,11 @@ impl Srv {
             Tr::WsInline => "ws-inline",
             Tr::WsOff => "ws-offreader",
         };
-        if self.mw { format!("{t}+mw") } else { t.to_string() }
+        let t = match &self.tag {
+            Some(tag) => format!("{t}-{tag}"),
+            None => t.to_string(),
+        };
+        if self.mw { format!("{t}+mw") } else { t }
     }
     pub fn is_ws(&self) -> bool {
         matches!(self.tr, Tr::WsInline | Tr::WsOff)
@@ -563,7 +569,7 @@ pub fn start_all(rt: &tokio::runtime::Runtime) -> std::io::Result<Vec<Srv>> {
             let router = build_router(sid, tr == Tr::WsOff, mw);
             // the middleware family also runs the TCP servers with timeouts configured
             let addr = start_server(rt, tr, router, mw)?;
-            v.push(Srv { sid, tr, mw, addr });
+            v.push(Srv { sid, tr, mw, addr, tag: None });
             sid += 1;
         }
     }
